@@ -23,6 +23,13 @@ def main():
     for pid in ids:
         if pid not in props: continue
         p = props[pid]
+        note = p['level_note']
+        qs = sorted({r['driver'] for r in p.get('replays', []) if r.get('quick')})
+        ts = sorted({r['driver'] for r in p.get('replays', []) if (r.get('thorough') or r.get('on_undecided')) and not r.get('quick')})
+        if qs and 'BOUNDED search' not in note:
+            note += '; BOUNDED stand-in, never counted as proved: both tiers also run the witness search(es) %s on the real code after the proofs (listed under coverage.bounded in the evidence; a hit is reported with the concrete input)' % ', '.join(qs)
+        if ts:
+            note += '; thorough tier (and either tier when a unit is undecided): bounded search(es) %s' % ', '.join(ts)
         checks.append({
             'property_id': pid,
             'quick_cmd': './check %s --tier quick' % pid,
@@ -31,7 +38,7 @@ def main():
             'replay_cmd_template': './check %s --replay {path}' % pid,
             'engine': 'contracts',
             'level_claimed': {'category': p.get('level', 'proof'), 'text': p['level_text'], 'design_ref': p.get('design_ref', 'DESIGN.md §5.' + pid)},
-            'level_note': p['level_note'],
+            'level_note': note,
             'technique': p.get('technique', 'contract-based deductive verification (Verus) of functions extracted from /repo on every run'),
         })
     missing = [i for i in ids if i not in props and i not in na]
